@@ -3,7 +3,7 @@ import json, os, re
 from . import core
 from .core import Check, tlc, run_sweeps, validate
 from .shapes import *
-from .checks_codes import _collect, _seed_of, _finish_codes, _bg, _join, sweep_cmd, roundtrip_cmds
+from .checks_codes import _collect, _seed_of, _finish_codes, _bg, _join, sweep_cmd, roundtrip_cmds, _suite
 from . import histories as H
 
 
@@ -66,6 +66,13 @@ def c14():
     # isolation: after every create/destroy step every live instance still round-trips (C14)
     scripts += ["\n".join(_isolation_history(_seed_of(chk, 5000 + i))) for i in range(60 if thorough else 12)]
     v, files = _run_hist(chk, scripts, "C14", ["C14", "C13 create", "C02", "C13/C01", "C13/C03", "fault"])
+    # the same wrap and collision histories on the repository's own compiler and optimisation level (gcc -O2): the
+    # counter's wrap is signed overflow in C, what it does is the compiler's choice (D13)
+    wraps = ["\n".join(sc) for sc in _wrap_collision_histories()]
+    scripts_g = wraps + [sc for sc in scripts[:len(paths)] if "setnext" in sc][: (400 if thorough else 120)]
+    vg, files_g = _run_hist(chk, scripts_g, "C14-gcc", ["C14", "C13 create", "C02", "fault"], variant="gcc")
+    vw, files_w = _run_hist(chk, wraps, "C14-wrap", ["C14", "C13 create", "C02", "fault"])
+    chk.parts["gcc_O2_histories"] = len(scripts_g)
     _join(m1)
     c = v.counts or [0] * 16
     chk.cov["distinct_nontrivial"] = c[4] + c[5]
@@ -74,6 +81,7 @@ def c14():
     if paths:
         chk.sample({"tlc_history": paths[min(len(paths) - 1, 200)]})
     chk.sample({"script": H.random_history(_seed_of(chk, 0), 30)[:25]})
+    _suite(chk, ["C14", "C13 create", "fault"])
     return _finish_codes(chk,
         "TLC: complete state graph of the registry model (3 slots, RS / XOR / refused configurations, descriptor counter in -2..5 so "
         "that every wrap and every skip-over-live configuration is reached): descriptors positive, fresh, failed calls change nothing; "
@@ -83,6 +91,38 @@ def c14():
         "MaxInt = INT_MAX incl. the exact descriptor value, counter, registry projection and GF-table presence; "
         "non-trivial = successful creates + destroys" % ("60 (complete)" if thorough else "8", nrand),
         ["TLC", "ASan/UBSan", "allocation ledger"], exhaustive=thorough)
+
+
+def _wrap_collision_histories():
+    """The counter lands on live descriptors right at the wrap: live sets {INT_MAX}, {INT_MAX-1, INT_MAX}, {INT_MAX, 1},
+    {INT_MAX-1, INT_MAX, 1, 2} with the counter 1 or 2 below the first of them, so that the allocator has to step over
+    live descriptors ACROSS the signed wrap (several iterations of its loop, the second or third of which overflows)."""
+    M = H.INT_MAX
+    out = []
+    cfg = "6 2 1 1 16 2"
+    cfg2 = "3 3 3 3 32 1"
+    for live in ([M], [M - 1, M], [M, 1], [M - 1, M, 1, 2], [M, 1, 2, 3], [M - 2, M - 1, M]):
+        for below in (1, 2):
+            sc = ["reset"]
+            for i, d in enumerate(live):
+                sc.append("setnext %d" % (d - 1 if d > 1 else M))
+                sc.append("create %d %s" % (i + 1, cfg if i % 2 == 0 else cfg2))
+            sc.append("probe")
+            sc.append("setnext %d" % (live[0] - below))
+            sc.append("create 9 %s" % cfg)
+            sc.append("probe")
+            sc.append("setnext %d" % (live[0] - below))
+            sc.append("create 10 %s" % cfg2)
+            sc.append("probe")
+            # every instance still works and dies properly
+            for s_ in list(range(1, len(live) + 1)) + [9, 10]:
+                sc.append("encode s%d %d 100 %d 0 0" % (s_, s_, s_))
+                sc.append("enc_cleanup s%d %d 0" % (s_, s_))
+            for s_ in [9] + list(range(1, len(live) + 1)) + [10]:
+                sc.append("destroy s%d" % s_)
+                sc.append("probe")
+            out.append(sc)
+    return out
 
 
 def _isolation_history(seed):
@@ -155,6 +195,7 @@ def c16():
     chk.parts.update({"histories": c[1], "calls_with_ledger_rules": c[6] + c[3] + c[5], "failing_calls": c[7], "injected_backend_failures": c[8],
                       "random_histories": nrand})
     chk.sample({"script": H.random_history(_seed_of(chk, 0), 40)[:30]})
+    _suite(chk, ["C16", "fault"])
     return _finish_codes(chk,
         "TLC: ownership model (encode/decode hand out, cleanups release, failed calls change nothing) over its complete graph; every "
         "transition up to depth %d and %d seeded random histories (all argument classes, insufficient sets, bad headers, unsupported "
@@ -233,6 +274,7 @@ def c13():
     chk.cov["distinct_nontrivial"] = c[7] + cb[11]
     chk.parts.update({"histories": c[1], "api_calls": c[6], "refused_calls": c[7], "create_box_shapes": cb[11]})
     chk.sample({"script": _argclass_history(1, 0)[:30]})
+    _suite(chk, ["C13", "C08 size query on a dead", "fault"])
     return _finish_codes(chk,
         "every public entry point with descriptor classes {live, destroyed, never issued, 0, -1, INT_MAX}, NULL pointers singly and "
         "combined, fragment counts {-1,0,k-1}, fragment lengths {0,79}, destinations {-1,n,n+1,INT_MAX,INT_MIN}, output variables "
@@ -343,6 +385,7 @@ def c17():
     chk.cov["distinct_nontrivial"] = c[8]
     chk.parts.update({"fault_positions_scripted": cases, "injected_failures_that_fired": c[8], "histories": c[1], "random_histories": nrand})
     chk.sample({"script": scripts[7].split("\n")})
+    _suite(chk, ["C17", "fault"])
     return _finish_codes(chk,
         "for every executable backend configuration, every backend operation (init, encode, decode, reconstruct, fragments_needed), "
         "every position n in {1,2,3} of a scripted workload that invokes each operation twice, and two failure variants (fail before / "
